@@ -30,7 +30,8 @@ func init() {
 	}
 }
 
-var plainProps = []string{"id", "name", "owner", "tags", "kind", "value", "next", "items", "data", "meta", "count", "child", "parent", "status"}
+var plainProps = []string{"id", "name", "owner", "tags", "kind", "value", "next", "items", "data", "meta", "count", "child", "parent", "status",
+	"idx", "names", "metadata", "kinds"}
 
 type gDoc struct {
 	path      string
@@ -153,6 +154,8 @@ func genBundle(r *R, opts FlatOpts, plus bool, thorough bool, force map[string]b
 	flag("multiReferrers", 50)
 	flag("auxOnlyViaShared", 12)
 	flag("altSpelling", 25)
+	flag("unusedShared", 20)
+	flag("sameDirTwins", 10)
 	flag("rootNoDefs", 10)
 	flag("security", 45)
 	flag("opMedia", 35)
@@ -214,8 +217,20 @@ func genBundle(r *R, opts FlatOpts, plus bool, thorough bool, force map[string]b
 		flag("plusOpPtr", 20)
 	}
 
-	auxPaths := []string{simRootDir + "/sub/a.json", simRootDir + "/sub/deeper/b.json", simRootDir + "/other/c.json"}
+	auxPaths := []string{simRootDir + "/sub/a.json", simRootDir + "/sub/deeper/b.json", simRootDir + "/other/c.json", simRootDir + "/sub/a2.json"}
 	r.Shuffle(len(auxPaths), func(i, j int) { auxPaths[i], auxPaths[j] = auxPaths[j], auxPaths[i] })
+	if g.on("sameDirTwins") && naux >= 2 && !g.on("auxOnlyViaShared") && !g.on("rootNoDefs") {
+		// two auxiliary documents in the SAME directory
+		rest := []string{}
+		for _, p := range auxPaths {
+			if p != simRootDir+"/sub/a.json" && p != simRootDir+"/sub/a2.json" {
+				rest = append(rest, p)
+			}
+		}
+		auxPaths = append([]string{simRootDir + "/sub/a.json", simRootDir + "/sub/a2.json"}, rest...)
+	} else {
+		g.feat["sameDirTwins"] = false
+	}
 	rootPath := simRootDir + "/root.json"
 	if plus {
 		flag("plusDeepRoot", 15)
@@ -245,6 +260,9 @@ func genBundle(r *R, opts FlatOpts, plus bool, thorough bool, force map[string]b
 		g.plantRecursion()
 	}
 	g.breakAliasLoops()
+	if g.on("collideGenerated") {
+		g.plantGeneratedNameCollisions()
+	}
 	g.sharedObjects()
 	g.rootPaths()
 	if g.on("auxOnlyViaShared") {
@@ -254,6 +272,9 @@ func genBundle(r *R, opts FlatOpts, plus bool, thorough bool, force map[string]b
 	}
 	if g.on("caseSiblings") {
 		g.plantCaseSiblings()
+	}
+	if g.on("sameDirTwins") {
+		g.plantSameDirTwins()
 	}
 	if g.on("anonPtr") && !opts.Expand {
 		g.plantAnonPointers()
@@ -434,6 +455,15 @@ func (g *bundleGen) chooseNames() {
 			}
 		}
 	}
+}
+
+func isPlainIdent(s string) bool {
+	for _, c := range s {
+		if !(unicode.IsLetter(c) || unicode.IsDigit(c)) || c > 127 {
+			return false
+		}
+	}
+	return s != ""
 }
 
 func upperFirst(s string) string {
@@ -669,6 +699,72 @@ func (g *bundleGen) plantRecursion() {
 	}
 }
 
+// plantGeneratedNameCollisions adds root definitions bearing exactly (or up to case) the names full flattening will
+// generate for inline complex schemas that really exist in the root definitions, one and two levels deep
+// (<def><Prop>, <def><Prop><Prop2>). The added definitions are $ref-free and never collide with a definition of an
+// auxiliary document (that would change which imports must be $ref-free).
+func (g *bundleGen) plantGeneratedNameCollisions() {
+	rd := g.docs[0]
+	taken := map[string]bool{}
+	for _, d := range g.docs {
+		for _, n := range d.defNames {
+			taken[normName(n)] = true
+		}
+	}
+	var cands []string
+	isComplex := func(v any) (obj, bool) {
+		m, ok := asObj(v)
+		if !ok {
+			return nil, false
+		}
+		if p, ok := asObj(m["properties"]); ok && len(p) > 0 {
+			return m, true
+		}
+		return nil, false
+	}
+	for _, base := range rd.defNames {
+		if !isPlainIdent(base) {
+			continue
+		}
+		body, ok := isComplex(rd.defs[base])
+		if !ok {
+			continue
+		}
+		props, _ := asObj(body["properties"])
+		for _, p1 := range sortedKeys(props) {
+			inner, ok := isComplex(props[p1])
+			if !ok || !isPlainIdent(p1) {
+				continue
+			}
+			cands = append(cands, base+upperFirst(p1))
+			props2, _ := asObj(inner["properties"])
+			for _, p2 := range sortedKeys(props2) {
+				if _, ok := isComplex(props2[p2]); ok && isPlainIdent(p2) {
+					cands = append(cands, base+upperFirst(p1)+upperFirst(p2))
+				}
+			}
+		}
+	}
+	if len(cands) == 0 {
+		return
+	}
+	for i := 0; i < g.r.Range(1, 2); i++ {
+		c := g.r.Pick(cands)
+		switch g.r.Intn(3) {
+		case 1:
+			c = strings.ToLower(c)
+		case 2:
+			c = upperFirst(c)
+		}
+		if taken[normName(c)] {
+			continue
+		}
+		taken[normName(c)] = true
+		rd.defs[c] = obj{"type": "string", "description": "pre-existing definition named like a generated name"}
+		rd.defNames = append(rd.defNames, c)
+	}
+}
+
 // breakAliasLoops: a definition that is only a $ref (an alias) is fine, a loop of aliases is not a schema
 // (the chain never resolves), hence outside W: such a loop is cut by making one member a primitive.
 func (g *bundleGen) breakAliasLoops() {
@@ -756,7 +852,7 @@ func (g *bundleGen) response(d *gDoc) obj {
 func (g *bundleGen) sharedObjects() {
 	r := g.r
 	for _, d := range g.docs {
-		if g.on("paramRefs") || (d.isRoot && g.on("anonPtrShared")) {
+		if g.on("paramRefs") || (d.isRoot && (g.on("anonPtrShared") || g.on("unusedShared"))) {
 			n := r.Range(1, 2)
 			for i := 0; i < n; i++ {
 				name := fmt.Sprintf("%sParam%d", strings.TrimSuffix(path.Base(d.path), ".json"), i)
@@ -767,7 +863,7 @@ func (g *bundleGen) sharedObjects() {
 				}
 			}
 		}
-		if g.on("respRefs") || (d.isRoot && g.on("anonPtrShared")) {
+		if g.on("respRefs") || (d.isRoot && (g.on("anonPtrShared") || g.on("unusedShared"))) {
 			n := r.Range(1, 2)
 			for i := 0; i < n; i++ {
 				name := fmt.Sprintf("%sResp%d", strings.TrimSuffix(path.Base(d.path), ".json"), i)
@@ -997,7 +1093,7 @@ func (g *bundleGen) ensureAuxUsed() {
 			rd.defNames = append(rd.defNames, holder)
 			if g.on("multiReferrers") && g.r.P(60) {
 				// further referrers of the same imported definition, at other kinds of places
-				for u := 0; u < g.r.Range(1, 2); u++ {
+				for u := 0; u < g.r.Range(1, 4); u++ {
 					ref2 := obj{"$ref": g.refToAlt(rd, ad, "definitions", n)}
 					switch g.r.Intn(4) {
 					case 0:
@@ -1041,6 +1137,34 @@ func (g *bundleGen) ensureSharedAuxUse() {
 			op["parameters"] = []any{obj{"$ref": refTo(rd, ad, "parameters", sortedKeys(ad.params)[0])}}
 		}
 		rd.paths[fmt.Sprintf("/shared%d", i)] = obj{"get": op}
+	}
+}
+
+// plantSameDirTwins: two auxiliary documents of one directory each own a $ref-free definition of the same name
+// ("twinLeaf", different content) which a recursive definition of the same document (different names: twinNodeA /
+// twinNodeB) refers to by a fragment-only $ref; the root refers to both recursive definitions.
+func (g *bundleGen) plantSameDirTwins() {
+	rd := g.docs[0]
+	if len(g.docs) < 3 {
+		return
+	}
+	for _, d := range g.docs {
+		for _, n := range d.defNames {
+			if nn := normName(n); nn == "twinleaf" || nn == "twinnodea" || nn == "twinnodeb" {
+				return
+			}
+		}
+	}
+	for i, ad := range g.docs[1:3] {
+		leafType := []string{"string", "integer"}[i]
+		node := []string{"twinNodeA", "twinNodeB"}[i]
+		ad.defs["twinLeaf"] = obj{"type": leafType, "description": "leaf of " + path.Base(ad.path)}
+		ad.refFree["twinLeaf"] = true
+		ad.defs[node] = obj{"type": "object", "properties": obj{
+			"next":    obj{"$ref": mkRef("", "definitions", node)},
+			"payload": obj{"$ref": mkRef("", "definitions", "twinLeaf")}}}
+		ad.defNames = append(ad.defNames, "twinLeaf", node)
+		g.addRootOp(fmt.Sprintf("/twin%d", i), obj{"$ref": refTo(rd, ad, "definitions", node)})
 	}
 }
 
@@ -1202,10 +1326,25 @@ func (g *bundleGen) plantAnonPointers() {
 	if usePreferred {
 		k = 1
 	}
+	var sameDef []target
+	if !usePreferred && r.P(30) {
+		// both pointers into sibling sub-schemas of one definition
+		first := targets[r.Intn(len(targets))]
+		for _, t := range targets {
+			if len(t.toks) >= 2 && len(first.toks) >= 2 && t.toks[0] == first.toks[0] && t.toks[1] == first.toks[1] {
+				sameDef = append(sameDef, t)
+			}
+		}
+		if len(sameDef) >= 2 {
+			k = 2
+		}
+	}
 	for i := 0; i < k; i++ {
 		t := targets[r.Intn(len(targets))]
 		if usePreferred {
 			t = preferred[r.Intn(len(preferred))]
+		} else if len(sameDef) >= 2 {
+			t = sameDef[(i+int(r.s%7))%len(sameDef)]
 		}
 		ref := obj{"$ref": mkRef("", t.toks...)}
 		// holders live in fresh places that are not inside any pointer target: a new definition, or a new
